@@ -61,7 +61,7 @@ fn domain(thorough: bool) -> Vec<OptVal> {
         );
         d.push(ov("filter_policy", format!("len{n}"), move |o| o.filter_policy(FilterPolicy::new(v.clone()))));
     }
-    for m in [0u64, 1, 8 * 1024 * 1024, u64::MAX] {
+    for m in [0u64, 1, 4096, 8 * 1024 * 1024, u64::MAX] {
         d.push(ov("max_memtable_size", format!("{m}"), move |o| o.max_memtable_size(m)));
     }
     d.push(ov("manual_journal_persist", "true", |o| o.manual_journal_persist(true)));
@@ -247,6 +247,21 @@ fn run_case(setters: &[&OptVal]) -> Result<String, (String, String)> {
                     })
                     .unwrap_or_else(|| ("fingerprints differ".into(), "?".into()));
                 return Err((format!("options.changed@{field}"), diff));
+            }
+            if round == 2 && (mm < 4500 || mm > 1_000_000) {
+                // the same through a batch whose LAST item belongs to another keyspace (with a large memtable limit)
+                let other = db.keyspace("other", || most_different(false)).map_err(|x| e("open other", x))?;
+                let big_other = other.verif_config_scalars().0 > 1_000_000;
+                let mut b = db.batch();
+                b.insert(&ks, "b", vec![7u8; 5000]);
+                b.insert(&other, "z", "1");
+                b.commit().map_err(|x| e("batch", x))?;
+                let queued = db.verif_pending().iter().any(|m| m.contains("Rotate") && m.contains("\"k\""));
+                let expect = mm < 4500;
+                let _ = big_other;
+                if queued != expect {
+                    return Err(("options.behaviour@max_memtable_size".into(), format!("max_memtable_size={mm}: after a batch touching `k` and then `other`, rotation of `k` queued = {queued}")));
+                }
             }
             if round == 3 {
                 // behavioural cross-check of max_memtable_size
